@@ -401,10 +401,67 @@ def rule_r5(prog, res) -> None:
         raise AnalysisError(f"C17.R5: only {n} rank guards found, minimum 3")
 
 
+ARITH_DUNDERS = ("__add__", "__radd__", "__sub__", "__rsub__", "__mul__", "__rmul__", "__truediv__", "__neg__", "__iadd__", "__isub__", "__imul__", "__itruediv__")
+
+
+def rule_r6(prog, res) -> None:
+    """container arithmetic never modifies an operand: the operator methods (including augmented assignment
+    operators, which `total += part` and sum() fall back to) build a new container and leave the arrays of
+    `self` and `other` untouched"""
+    n = 0
+    for ci in _containers(prog):
+        for name in ARITH_DUNDERS:
+            m = ci.methods.get(name)
+            if m is None:
+                continue
+            n += 1
+            res.touch(m)
+            params = set(m.param_names()[:2])
+            bad = None
+            for x in walk_no_nested(m.node):
+                tgt = None
+                if isinstance(x, ast.AugAssign):
+                    tgt = x.target
+                elif isinstance(x, ast.Assign):
+                    tgt = next((t for t in x.targets if isinstance(t, (ast.Attribute, ast.Subscript))), None)
+                if tgt is None:
+                    continue
+                root = tgt
+                while isinstance(root, (ast.Attribute, ast.Subscript)):
+                    root = root.value
+                if isinstance(root, ast.Name) and root.id in params:
+                    bad = x
+                    break
+                if isinstance(x, ast.AugAssign) and isinstance(root, ast.Name):
+                    # a local that aliases an operand's array: x = self.counts; x += …
+                    from ..dataflow import all_def_values
+
+                    for v in all_def_values(m.node, root.id):
+                        r2 = v
+                        while isinstance(r2, (ast.Attribute, ast.Subscript)):
+                            r2 = r2.value
+                        if v is not None and isinstance(v, (ast.Attribute, ast.Subscript)) and isinstance(r2, ast.Name) and r2.id in params:
+                            bad = x
+            if bad is not None:
+                res.violation(
+                    "C17.R6",
+                    m,
+                    bad,
+                    f"{ci.name}.{name} modifies an operand in place (`{norm_stmt(bad)[:60]}`): a container that is also referenced elsewhere (e.g. the first element given to sum(), or a measurement "
+                    "that is accumulated into a total) silently changes its counts",
+                    key_extra=f"operator-mutates-{ci.name}-{name}",
+                )
+            else:
+                res.ok("C17.R6", res.site(m), "builds its result without storing into self / other")
+    if n < 8:
+        raise AnalysisError(f"C17.R6: only {n} arithmetic operator methods found on the containers, minimum 8")
+
+
 RULES = [
     ("C17.R1", rule_r1, QUICK),
     ("C17.R2", rule_r2, QUICK),
     ("C17.R3", rule_r3, QUICK),
     ("C17.R4", rule_r4, QUICK),
     ("C17.R5", rule_r5, QUICK),
+    ("C17.R6", rule_r6, QUICK),
 ]
